@@ -26,32 +26,47 @@ Definition same_schema (input : list N) (o : option outcome) : Prop :=
   | _, _ => False
   end.
 
+Definition empty_schema : ischema := mkISchema [] [] [] [].
+Definition parsed (input : list N) : ischema := match parse input with OOk s _ => s | _ => empty_schema end.
+Definition reparsed (fixed : bool) (input : list N) : ischema :=
+  match reparse fixed input with Some (OOk s _) => s | _ => empty_schema end.
+
+Definition s_array_dict : ischema := Eval vm_compute in parsed d8_array_dict.
+Definition s_array_dict_legacy : ischema := Eval vm_compute in reparsed false d8_array_dict.
+Definition s_enum_field : ischema := Eval vm_compute in parsed d8_enum_field.
+Definition s_enum_field_legacy : ischema := Eval vm_compute in reparsed false d8_enum_field.
+Definition s_enum_dict : ischema := Eval vm_compute in parsed d8_enum_dict.
+
 (* D8 before the fix: the dictionary of an array element type is dropped ... *)
 Lemma print_legacy_drops_array_dict :
-  exists s w s' w', parse d8_array_dict = OOk s w /\ parse (utf8_encode (print_legacy s)) = OOk s' w' /\
-                    i_structs s' <> i_structs s.
-Proof. do 4 eexists. split; [vm_compute; reflexivity|]. split; [vm_compute; reflexivity|]. discriminate. Qed.
+  parse d8_array_dict = OOk s_array_dict [] /\
+  parse (utf8_encode (print_legacy s_array_dict)) = OOk s_array_dict_legacy [] /\
+  i_structs s_array_dict_legacy <> i_structs s_array_dict.
+Proof. split; [vm_compute; reflexivity|]. split; [vm_compute; reflexivity|]. discriminate. Qed.
 
-(* ... an enum-typed field comes back as uint64 ... *)
+(* ... an enum-typed field comes back as uint64 (and the enum, now unused, is pruned) ... *)
 Lemma print_legacy_loses_enum :
-  exists s w s' w', parse d8_enum_field = OOk s w /\ parse (utf8_encode (print_legacy s)) = OOk s' w' /\
-                    i_structs s' <> i_structs s.
-Proof. do 4 eexists. split; [vm_compute; reflexivity|]. split; [vm_compute; reflexivity|]. discriminate. Qed.
+  parse d8_enum_field = OOk s_enum_field [] /\
+  (exists w, parse (utf8_encode (print_legacy s_enum_field)) = OOk s_enum_field_legacy w) /\
+  i_structs s_enum_field_legacy <> i_structs s_enum_field.
+Proof. split; [vm_compute; reflexivity|]. split; [eexists; vm_compute; reflexivity|]. discriminate. Qed.
 
 (* ... and with a dict modifier the printed text is not even accepted *)
 Lemma print_legacy_enum_dict_rejected :
-  exists s w p, parse d8_enum_dict = OOk s w /\ parse (utf8_encode (print_legacy s)) = OErr p MDictPrim.
-Proof. do 3 eexists. split; vm_compute; reflexivity. Qed.
+  parse d8_enum_dict = OOk s_enum_dict [] /\
+  exists p, parse (utf8_encode (print_legacy s_enum_dict)) = OErr p MDictPrim.
+Proof. split; [vm_compute; reflexivity|]. eexists. vm_compute. reflexivity. Qed.
 
 (* after the fix the three witnesses round-trip exactly *)
 Lemma print_fixed_witnesses :
-  same_schema d8_array_dict (reparse true d8_array_dict) /\
-  same_schema d8_enum_field (reparse true d8_enum_field) /\
-  same_schema d8_enum_dict (reparse true d8_enum_dict).
+  parse (utf8_encode (print s_array_dict)) = OOk s_array_dict [] /\
+  parse (utf8_encode (print s_enum_field)) = OOk s_enum_field [] /\
+  parse (utf8_encode (print s_enum_dict)) = OOk s_enum_dict [].
 Proof. repeat split; vm_compute; reflexivity. Qed.
 
 (* still open (known finding C13-empty-schema): a schema without a root struct parses to the empty
-   schema, whose printed form "package a" the parser rejects *)
+   schema (with a warning), whose printed form "package a" the parser rejects *)
 Lemma print_parse_rootless_refuted :
-  exists s w p, parse rootless = OOk s w /\ parse (utf8_encode (print s)) = OErr p MTopLevel.
-Proof. do 3 eexists. split; vm_compute; reflexivity. Qed.
+  (exists w, parse rootless = OOk (mkISchema [[97]] [] [] []) w) /\
+  exists p, parse (utf8_encode (print (mkISchema [[97]] [] [] []))) = OErr p MTopLevel.
+Proof. split; eexists; vm_compute; reflexivity. Qed.
